@@ -2,6 +2,7 @@ import props as _props
 from locks_gen import regen_locks
 
 PROP = {
+    "confirm_scenarios": ['hol.*'],
     "extra": [_props.race_detector_run("C11")],
     "coq": ["C11", "C11b"],
     "pre": [regen_locks],
